@@ -4,6 +4,9 @@ import json
 E2="bounded exhaustive input enumeration against a reference model (small-scope model checking of the implementation)"
 E1="exhaustive schedule exploration of the implementation (stateless DFS with state caching under a controlled cooperative scheduler)"
 CHECKS = {
+ "C17": dict(engine="E1xE4", category="fault_enumeration", technique="exhaustive fault-position enumeration crossed with exhaustive schedule exploration of the implementation (controlled scheduler, DFS with state caching) + real-binary exit-status layer",
+   text="Every fault configuration (fault kind x record/byte/write/file position x verb chain incl. failing verb in each chain position x --records-per-batch) is executed on the real pipeline under the cooperative scheduler over ALL goroutine schedules. Per execution: termination (no deadlock, no horizon overrun, no spin); whenever the fault is certainly reached every schedule must fail (non-nil error from Stream or trapped non-zero exit) with a diagnostic. Faults: malformed CSV/JSON rows, CSV-output schema change, DSL run-time failures (returned and os.Exit kinds, main and end blocks), per-file writer errors of tee/emit/split targets, unwritable redirect targets, stdout write failure at the n-th write, read error after k bytes for 12 readers, missing file at list position i. A real-binary layer (40 commands: /dev/full, directories, unreadable files under setpriv, corrupt gzip ...) pins exit status and diagnostic.",
+   note="A fault behind an early-exit verb may legitimately never be reached (termination only). Reads/writes are positional answers of controlled readers/writers. Real-binary hangs decided by a 30 s deadline re-run 3x. Trusted: tools/vinstr rewrite, rt/verifrt."),
  "C04": dict(engine="E1", category="model_checking", technique=E1,
    text="Every configuration (verb chain x input x --records-per-batch) is run on the real pipeline under a cooperative scheduler that owns every channel operation, select, close, spawn and RNG draw; all schedules are enumerated (DFS by re-execution, state caching). Per execution: no deadlock, no step-horizon overrun, no goroutine fault; over all schedules and batch sizes of a (chain,input) pair the (stdout, error, tee file) outcome is a singleton and equals a list-algebra reference where one exists.",
    note="Goroutines are assumed to interact only through intercepted operations (plus the RNG, which is intercepted); inputs N<=4/6 records; external processes not scheduled. Trusted: tools/vinstr rewrite (syntactic), rt/verifrt scheduler."),
